@@ -24,7 +24,7 @@ RULE = (
     "FractionValue, the six comparisons and IsValid / CheckValidity (three categories with limits - length [0,100) m, length [0.05,1] m, temperature [250,300] K - written in default and other units incl. degC/degF, numbers as generated and near the limits; verdict, violated limit and operator) against Scalar(float(fv),u), over unit pairs "
     "of every quantity type (one rotation per draw in quick, all 37 040 pairs in thorough) incl. affine units, "
     "1e-12*S plus the library's documented 1e-8 absolute rounding of the converted numerator; the same on a database "
-    "registered at run time (affine units given by string formulas and by callables). Non-trivial = non-zero "
+    "registered at run time (affine units given by string formulas and by callables). The classmethod ConvertFractionValue called directly (quantity object in the source unit, in the target unit, quantity type by name) gives the same amount; objects created before their category is re-registered with other limits keep agreeing with the Scalar. Non-trivial = non-zero "
     "fraction part with non-integer number, or a conversion between different units; key = (operation, digit class, "
     "unit pair)."
 )
@@ -441,6 +441,16 @@ class ScalarChecker:
             ctx.record("db_convert_fraction_value_differs", case, "db.Convert(%r,%r,%r,%r) = %r, Scalar route %r" % (qt, u, v, fv, r, want))
         if got_fv.__class__ is not FractionValue:
             ctx.record("fraction_scalar_getvalue_type", case, "GetValue returned %r" % type(got_fv))
+        # the public classmethod called directly: the amount is in `from_unit`, whatever unit the quantity object that
+        # comes along happens to carry (only its categories matter), and the quantity type may be given by name
+        if u != v and not tiny:
+            from barril.units import ObtainQuantity
+
+            for how, q in (("quantity in the target unit", ObtainQuantity(v, c)), ("quantity in the source unit", ObtainQuantity(u, c)), ("quantity type name", qt)):
+                ctx.ev()
+                d = FractionScalar.ConvertFractionValue(fv, q, u, v)
+                if not core.close(float(d), want, S, 1e-12, slack):
+                    ctx.record("convert_fraction_value_classmethod_differs:%s" % how.replace(" ", "_"), case, "FractionScalar.ConvertFractionValue(%r, <%s>, %r, %r) = %r (%r), Scalar route %r" % (fv, how, u, v, d, float(d), want))
         # comparisons: other value y in unit v, clearly separated from x (base amounts)
         A = um.offset[u] + um.slope[u] * x
         for sign in (1.0, -1.0):
@@ -475,6 +485,20 @@ class ScalarChecker:
             except QuantityValidationError as e:
                 return (o.IsValid(), (e.operator, e.limit_value))
 
+        # objects created before their category is re-registered with other limits keep the definition they were
+        # created under - a FractionScalar exactly like a Scalar
+        if case.get("redefine"):
+            fvr = FractionValue(case["number"], Fraction(case["num"], case["den"]))
+            pairs = [(FractionScalar(fvr, u, "bv c18 band"), Scalar(float(fvr), u, "bv c18 band")) for u in ("m", "cm", "ft")]
+            self.db.AddCategory("bv c18 band", "length", override=True, min_value=0.0, max_value=1000.0, default_unit="m", default_value=0.5)
+            try:
+                for fo, so in pairs:
+                    ctx.ev()
+                    if verdict(fo) != verdict(so):
+                        ctx.fail("fraction_scalar_validity_differs_from_scalar:after_category_was_redefined", dict(case, u=fo.GetUnit()), "created before 'bv c18 band' was re-registered with other limits: %r -> %r, %r -> %r" % (fo, verdict(fo), so, verdict(so)))
+            finally:
+                self.db.AddCategory("bv c18 band", "length", override=True, min_value=0.05, max_value=1.0, default_unit="m", default_value=0.5)
+            ctx.cls("validity_after_redefinition_checked")
         for cat, units, _k in LIMITED:
             for u in units:
                 # the generated number as it is, and brought into the neighbourhood of the limits in this unit
@@ -602,7 +626,7 @@ def run_shard(spec, ctx):
                 sc.check_validity({"number": f1[0] % 150, "num": f1[1], "den": f1[2]})
                 sc.check_validity({"number": 99, "num": f2[1], "den": f2[2]})
                 for k in range(12):
-                    sc.check_validity({"number": round((f1[0] * (k + 1) * 0.37) % 11.0, 2), "num": (f1[1] if k % 2 else f2[1]), "den": (f1[2] if k % 2 else f2[2])})
+                    sc.check_validity({"number": round((f1[0] * (k + 1) * 0.37) % 11.0, 2), "num": (f1[1] if k % 2 else f2[1]), "den": (f1[2] if k % 2 else f2[2]), "redefine": k % 4 == 0})
 
             return test
 
